@@ -75,8 +75,8 @@ CLAIMED = {
         ref="DESIGN.md 8 C12",
     ),
     "C13": dict(
-        technique="machine-checked proof in Coq (inverse placement, conjugated path transform, projection-point linear gradient = three-point gradient; with C16/C01 theorems for transforms and radial split) + end-to-end comparison of colr_to_svg output against an independent COLR renderer on generated paint graphs",
-        text="Unbounded theorems over any field: the font->viewBox map undoes the source placement; a <path> drawn through V with transform V A V^-1 shows V(A(outline)); the SVG gradient through P0 and the projection point P3 has exactly the colour function of the COLR gradient (P0,P1,P2) for every non-degenerate rotated P2. End to end: COLRv1 fonts are built with fontTools.colorLib from generated paint graphs (all supported paint formats incl. Rotate/Skew/ColrGlyph/composite glyphs that nanoemoji itself never emits, 3 extend modes, 1-3 palettes, several viewBoxes), converted by the real colr_to_svg, and the SVG (rendered by the independent interpreter, mapped back by the placement) is compared layer by layer with the COLR rendering of the graph; COLRv0 likewise; every unsupported format (sweep, Var*, other composite modes) must raise or warn - enumerated.",
+        technique="machine-checked proof in Coq (refinement: the modelled COLR->SVG traversal paints, through the font-to-viewBox map, exactly the layers the COLR graph paints, for every supported paint graph of any depth; inverse placement, conjugated path transform, projection-point linear gradient) + correspondence by vm_compute of the written element tree against the model + end-to-end comparison of colr_to_svg output against an independent COLR renderer on generated paint graphs",
+        text="Unbounded theorems over any field: (traversal) for every paint graph in the supported class - any nesting of PaintColrLayers, the ten transform paints above and below a PaintGlyph, PaintColrGlyph through the base glyph records, SRC_IN-over-black group opacity - the element tree Model.SvgTree.to_svg writes (path transform attribute V t V^-1 with the pending transform reset, <g transform> for a transformed PaintColrGlyph, <g opacity>, gradient coordinates mapped by (fill transform ; V)) paints the same glyphs in the same order, each outline at V o (COLR placement) and each fill geometry at V o (COLR fill placement) under the same group opacities, as the COLR graph does by the COLR specification (proved by induction with the invariant V;acc = C;V;t); the written linear gradient (mapped points, then P3) has the COLR colour parameter at the image of every point; the font->viewBox map undoes the source placement; a <path> drawn through V with transform V A V^-1 shows V(A(outline)); the SVG gradient through P0 and the projection point P3 has exactly the colour function of the COLR gradient (P0,P1,P2) for every non-degenerate rotated P2. End to end: COLRv1 fonts are built with fontTools.colorLib from generated paint graphs (all supported paint formats incl. Rotate/Skew/ColrGlyph/composite glyphs that nanoemoji itself never emits, 3 extend modes, 1-3 palettes, several viewBoxes), converted by the real colr_to_svg, and the SVG (rendered by the independent interpreter, mapped back by the placement) is compared layer by layer with the COLR rendering of the graph; COLRv0 likewise; every unsupported format (sweep, Var*, other composite modes) must raise or warn - enumerated. The traversal model is tied to the code by reading the compiled COLR table independently, running the real _colr_v1_glyph_to_svg, and comparing the element tree it wrote (transform attributes, which glyph each d draws, solid/linear/radial fill geometry, groups) with to_svg evaluated in Coq on the same graph (tolerances for the three-decimal attribute rounding).",
         ref="DESIGN.md 8 C13",
     ),
     "C14": dict(
@@ -111,8 +111,8 @@ CLAIMED = {
         ref="DESIGN.md 8 C19",
     ),
     "C20": dict(
-        technique="machine-checked proof in Coq (flag > file > default for every option type; the colour-format table regenerated from the live modules equals the documented one, by vm_compute) + real CLI builds observing each option in the written font",
-        text="Theorems: the resolution rule picks the flag if given, else the file value, else the default; the live table of the 13 colour formats (input kinds, OT-SVG-ness, outline flavour, has_* predicates) is exactly the documented table - re-checked against the source on every run (this theorem failed on the unchanged tree and exposed is_ot_svg being always False: fixed, F15). End to end through the real CLI: every observable option is given by file, by flag and by both with different values, and its observable is read from the written font (name, head, hhea, OS/2 incl. fsSelection bit 7, hmtx, post, table tags and COLR version, file name and outline flavour, ClipList edges, CBLC/CBDT strike size, SVG text, glyph placement under --transform, reuse on/off, clipping) or from build.ninja for compression options; a build without options must show the documented defaults; pairs of configurations in one invocation must equal the fonts built alone. Found and fixed: picosvg keyed by source (F5), --reuse_tolerance -1 crashed the CLI (F16); known: bitmap intermediates keyed by name (F5b).",
+        technique="machine-checked proof in Coq (flag > file > default for every option type; the colour-format table regenerated from the live modules equals the documented one, and the option-path table regenerated from config.py by an ast translator is complete, both by vm_compute) + real CLI builds observing each option in the written font",
+        text="Theorems: the resolution rule picks the flag if given, else the file value, else the default; the live table of the 13 colour formats (input kinds, OT-SVG-ness, outline flavour, has_* predicates) is exactly the documented table - re-checked against the source on every run (this theorem failed on the unchanged tree and exposed is_ot_svg being always False: fixed, F15); the option-path table (one row per FontConfig field, regenerated from config.py's text by a fail-closed ast translator) shows for each of the 23 documented options a flag of the documented kind whose unset value is None, the key written by config.write, the _pop_flag read in config.load (whose body is the modelled rule), and the keyword handed to FontConfig - no field left out, nothing else written. End to end through the real CLI: every observable option is given by file, by flag and by both with different values, and its observable is read from the written font (name, head, hhea, OS/2 incl. fsSelection bit 7, hmtx, post, table tags and COLR version, file name and outline flavour, ClipList edges, CBLC/CBDT strike size, SVG text, glyph placement under --transform, reuse on/off, clipping) or from build.ninja for compression options; a build without options must show the documented defaults; pairs of configurations in one invocation must equal the fonts built alone. Found and fixed: picosvg keyed by source (F5), --reuse_tolerance -1 crashed the CLI (F16); known: bitmap intermediates keyed by name (F5b).",
         ref="DESIGN.md 8 C20",
     ),
 }
